@@ -42,7 +42,8 @@ Section StitchProg.
   Definition head_status (r : reply) : hstatus :=
     match r with
     | RData (Good (PlHead HvOk)) | RData (Good (PlHead HvNone)) => HOk
-    | RData (Good (PlHead HvUnparsable)) => HPanic      (* semver::Version::parse(..).unwrap() *)
+    (* an unparsable version string is an unsupported version (after "fix: an unparsable
+       band_format_version ..."); HPanic is no longer produced *)
     | _ => HErr
     end.
 
